@@ -164,6 +164,15 @@ def rule_whitenscale(ctx):
         if wh is None:
             res.undecided("%s : whitening-branch" % key, "no `if self.apply_whitening` (fail closed)", fn_loc(fn))
             continue
+        # no model leaves the fit before the whitening branch: a special case that returns early (a single feature, say)
+        # silently ignores `whiten(true)`
+        early = None
+        for y in walk(fn["body"]):
+            if y.get("k") == "Ret" and y.get("e") is not None and (y.get("ln") or 0) < (wh.get("ln") or 0) and any(z.get("k") == "Struct" for z in walk(y["e"])):
+                early = y
+        if early is not None:
+            res.violate("%s : model-returned-before-whitening" % key, "`%s` builds and returns the model before the `if self.apply_whitening` block: on that path a whitening request is ignored and the projected training data does not have unit variance" % r.e(early)[:50], fn_loc(fn, early.get("ln")))
+            continue
         seen, calls, stack = set(), [], [wh["then"]]
         while stack:
             e = stack.pop()
